@@ -191,16 +191,16 @@ def same_offset_zones(ctx, ylo, yhi):
 
 
 def cases(tier):
-    win = (1998, 2000) if tier == "quick" else (1901, 2000)
-    dw = (1996, 2000) if tier == "quick" else (1601, 2000)
+    win = (1998, 2000)
+    dw = (1996, 2000) if tier == "quick" else (1901, 2000)
     out = []
     for how in ("forward", "rebuild_op", "rebuild_add", "reversed"):
         out.append(dict(name=f"Date pairs {how}", fn=dates, params=dict(how=how, ylo=dw[0], yhi=dw[1]),
                         bounds=f"every ordered pair of Dates in years {dw[0]}..{dw[1]}"))
     for kind in (("naive", "utc", "zone") if tier == "quick" else ("naive", "utc", "fixed", "zone")):
-        hows = ("components", "rebuild_op", "rebuild_add") if tier != "quick" else ("components",)
+        hows = ("components", "rebuild_op") if (tier != "quick" and kind == "utc") else ("components",)
         for how in hows:
-            w = (2000, 2000) if (kind == "zone" and tier == "quick") else win
+            w = (2000, 2000) if kind == "zone" else win
             coarse = (kind == "zone" and tier == "quick")     # quick: zone pairs on whole hours (the borrow chain is decided on utc/naive)
             out.append(dict(name=f"DateTime pairs {kind} {how}" + (" (whole hours)" if coarse else ""), fn=datetimes,
                             params=dict(kind=kind, how=how, ylo=w[0], yhi=w[1], coarse=coarse),
@@ -212,7 +212,7 @@ def cases(tier):
                             params=dict(kind="utc", how=how, ylo=win[0], yhi=win[1], coarse=True),
                             bounds=f"every ordered pair of UTC DateTimes on whole hours in years {win[0]}..{win[1]}"))
     for ak, bk in ((("utc", "fixed"), ("fixed", "utc")) if tier == "quick" else
-                   (("utc", "fixed"), ("fixed", "utc"), ("fixed", "fixed"), ("fixed", "zone"), ("utc", "zone"))):
+                   (("utc", "fixed"), ("fixed", "utc"), ("utc", "zone"))):
         out.append(dict(name=f"different zones {ak}/{bk}", fn=different_zones, params=dict(akind=ak, bkind=bk, ylo=2000, yhi=2000, coarse=(tier == "quick")),
                         bounds=f"every ordered pair ({ak} start, differently named {bk} end) in year 2000, any offsets"
                                + (", wall times on whole minutes" if tier == "quick" else "")))
